@@ -154,7 +154,7 @@ fn touch(k: u8) {
     }
 }
 
-fn run_thread(plan: Arc<Plan>, uid: usize) -> i64 {
+pub fn run_thread(plan: Arc<Plan>, uid: usize) -> i64 {
     body_event(E_START, uid as i64, 0);
     let me = &plan.threads[uid];
     let tid: usize = shuttle::thread::current().id().into();
